@@ -60,3 +60,42 @@ class Mat:
 
     def __repr__(self):
         return "Mat(%r)" % (self.rows,)
+
+
+class Truth:
+    """Result of Q's rich comparisons: truthy or falsy, but never the singletons True/False (like numpy.bool_)."""
+
+    def __init__(self, value):
+        self.value = bool(value)
+
+    def __bool__(self):
+        return self.value
+
+    def __repr__(self):
+        return "Truth(%r)" % self.value
+
+
+class Q:
+    """Number-like object whose comparisons return Truth objects."""
+
+    def __init__(self, v):
+        self.v = v
+
+    def __lt__(self, other):
+        return Truth(self.v < other.v)
+
+    def __le__(self, other):
+        return Truth(self.v <= other.v)
+
+    def __gt__(self, other):
+        return Truth(self.v > other.v)
+
+    def __ge__(self, other):
+        return Truth(self.v >= other.v)
+
+    def __repr__(self):
+        return "Q(%r)" % self.v
+
+
+def mkq(v):
+    return Q(v)
